@@ -158,6 +158,25 @@ def run(tier):
                 h.shape_name, h.oa, h.sched, cs, verdict, sorted(terms[k])), rp)
         for complaint in judge(h.shape_name, rule, unrec, cs, verdict):
             chk.violation(key_for(h.shape_name, rule, "real"), "real run: %s outcomes=%s schedule=%s: %s" % (h.shape_name, h.oa, h.sched, complaint), rp)
+    # 2b. restart from a later stage (Controller.initialise(k > 0)), a slice of what the growth check G02 runs: every such run must
+    #     terminate and be a behaviour of the specification (the rule itself is judged for these cases by G02)
+    rruns = SC.run_real(SC.restart_cases(), 8 if thorough else 3, chk.scratch, chk.seed + 9, env_for=kill_env)
+    rres, tl = SC.validate_traces("c02rs" + tier, SC.RESTART_SHAPES, rruns, fixobs=FIXOBS)
+    for t in tl:
+        chk.add_tlc(t)
+    for h, res in zip(rruns, rres):
+        chk.evaluated((h.shape_name, tuple(h.oa), h.start, h.sched))
+        rp = dict(kind="real", shape=h.shape_name, oa=h.oa, sched=h.sched, extra=h.extra)
+        if h.stuck or not h.quiescent:
+            chk.violation("stuck:restart:%s" % h.shape_name, "%s outcomes=%s start=%d schedule=%s never reaches quiescence: %s" % (
+                h.shape_name, h.oa, h.start, h.sched, h.stuck), rp)
+        elif res is not None:
+            chk.violation(key_for_trace(h, res), "%s outcomes=%s start=%d schedule=%s: %s at step %s: %s" % (
+                h.shape_name, h.oa, h.start, h.sched, res["kind"], res.get("step"), json.dumps(describe(h, res.get("step")))[:1200]), rp)
+        else:
+            chk.trace_validated()
+    chk.cov["real_runs_restarted_from_a_later_stage"] = len(rruns)
+    runs = runs + rruns
     # the shape expansion and the graph the real code builds must have the same edges; a difference makes the real controller
     # schedule differently from the specification, which the trace validation above reports - if it did not, the shapes
     # (not the code) are suspect: machinery error
@@ -193,7 +212,7 @@ def replay(path):
         print("model-level finding: re-run ./check C02 to re-derive; case:", d)
         chk.evaluated(("m",)); chk.evaluated(("m2",))
         return chk.finish()
-    h = ctl.run_case(d["shape"], d["oa"], chk.scratch, SC.make_policy(tuple(d["sched"])))
+    h = ctl.run_case(d["shape"], d["oa"], chk.scratch, SC.make_policy(tuple(d["sched"])), **(d.get("extra") or {}))
     for e in h.trace:
         print(e["ev"], e["arg"], e["calls"], {k: v["cs"] for k, v in e["st"]["comps"].items()})
     print("final:", {k: v["cs"] for k, v in h.final["comps"].items()}, h.final["verdict"], "stuck:", h.stuck)
